@@ -463,13 +463,22 @@ Definition step_C06 (ps : pstate) (o : op) (ob : obs) (dg : digest) : bool :=
                     (* same session id first, then everything addressed to it meanwhile, in order, once *)
                     match got with
                     | SHello sid _ :: rest =>
-                        N.eqb sid n && list_eqb pair_eqb (smsg_tags rest) queued
+                        N.eqb sid n &&
+                        (* ... up to a bye / disinvite that was waiting among them: that one ends the session, nothing
+                           can be written after it *)
+                        (if existsb (fun m => match m with SBye _ | SDisinvite _ => true | _ => false end) rest
+                         then list_eqb pair_eqb (smsg_tags rest) (firstn (length (smsg_tags rest)) queued)
+                         else list_eqb pair_eqb (smsg_tags rest) queued)
                     | [SError 11] => true                 (* throttled *)
                     | _ => false end
                     &&
                     match got with
                     | [SError 11] => true
                     | _ =>
+                      (* a bye or a disinvite that was waiting in the queue ends the session once it is delivered *)
+                      if existsb (fun m => match m with SBye _ | SDisinvite _ => true | _ => false end) got then
+                        negb (live dg n) && nmem c ob.(o_closed)
+                      else
                       match find_sd dg n with
                       | Some y => optN_eqb y.(d_conn) (Some c) && opt_pair_eqb y.(d_room) x.(d_room) && N.eqb y.(d_pending) 0
                                   (* ... including the notice that it is in no room any more: what the client can
